@@ -18,12 +18,18 @@ func verif_forall[T any](f func(T) bool) bool { return true }
 
 // ---- ghost state (updated by the assumed contracts of go-diameter and mongoapi) -----------
 var (
-	ghostUnmarshalled any                          // destination of the last Message.Unmarshal
-	ghostUnmarshalErr error                        // its result
-	ghostMarshalled   any                          // value of the last Message.Marshal
-	ghostWrites       int                          // number of Message.WriteTo calls
-	ghostUnitCost     map[string]map[uint32]string // stored tariff per (ueId, ratingGroup)
+	ghostUnmarshalled any                // destination of the last Message.Unmarshal
+	ghostUnmarshalErr error              // its result
+	ghostMarshalled   any                // value of the last Message.Marshal
+	ghostWrites       int                // number of Message.WriteTo calls
+	ghostUnitCost     map[specKey]string // stored tariff per (ueId, ratingGroup)
 )
+
+// specKey: key of the account table
+type specKey struct {
+	Ue string
+	Rg uint32
+}
 
 // specUnitCost: the unit cost both sides derive from a tariff: ValueDigits * 10^Exponent in Unsigned32
 // arithmetic (internal/sbi/processor.getUnitCost uses the same formula on the received tariff).
@@ -51,16 +57,12 @@ func specKnown(sur *charging_datatype.ServiceUsageRequest) bool {
 	if sur.SubscriptionId.SubscriptionIdType != charging_datatype.END_USER_IMSI {
 		return false
 	}
-	m, ok := ghostUnitCost["imsi-"+string(sur.SubscriptionId.SubscriptionIdData)]
-	if !ok {
-		return false
-	}
-	_, ok = m[uint32(sur.ServiceRating.ServiceIdentifier)]
+	_, ok := ghostUnitCost[specKey{"imsi-" + string(sur.SubscriptionId.SubscriptionIdData), uint32(sur.ServiceRating.ServiceIdentifier)}]
 	return ok
 }
 
 func specStoredCost(sur *charging_datatype.ServiceUsageRequest) string {
-	return ghostUnitCost["imsi-"+string(sur.SubscriptionId.SubscriptionIdData)][uint32(sur.ServiceRating.ServiceIdentifier)]
+	return ghostUnitCost[specKey{"imsi-" + string(sur.SubscriptionId.SubscriptionIdData), uint32(sur.ServiceRating.ServiceIdentifier)}]
 }
 
 func specAtoiOK(s string) bool   { _, err := strconv.Atoi(s); return err == nil }
